@@ -12,12 +12,36 @@ pub fn upstream_query<Q: std::fmt::Display>(question: &Q, ip: IpAddr, match_coun
         w.log_event("trace.upstream_query", &format!("{q} -> {ip} m={match_count}"));
         let ctx = w.ctx_label().to_string();
         let at_ms = crate::clock::elapsed_ms();
-        w.trace.push(world::UpstreamQuery {
+        let entry = world::UpstreamQuery {
             ctx,
             question: q,
             ip,
             match_count,
             at_ms,
-        });
+        };
+        if let Some(mut hook) = w.on_upstream_query.take() {
+            hook(&entry);
+            w.on_upstream_query = Some(hook);
+        }
+        w.trace.push(entry);
+    });
+}
+
+/// Called for every attempt of the recursive resolver to find a name
+/// server's address: the question it is about to try and whether it only
+/// looks locally.
+pub fn address_lookup<Q: std::fmt::Display>(question: &Q, locally: bool) {
+    world::with(|w| {
+        let q = question.to_string();
+        w.log_event("trace.address_lookup", &format!("{q} local={locally}"));
+        let ctx = w.ctx_label().to_string();
+        w.address_lookup_count += 1;
+        if w.address_lookups.len() < 50_000 {
+            w.address_lookups.push(world::AddressLookup {
+                ctx,
+                question: q,
+                locally,
+            });
+        }
     });
 }
